@@ -1,13 +1,14 @@
 /-
-  Model of pgdump/toast.go (with fixes/toast/01..04 applied) and of types.go:ReadVarlena as far as
+  Model of pgdump/toast.go (with fixes/toast/01..06 applied) and of types.go:ReadVarlena as far as
   ReadTOASTTable uses it.  One Lean function per Go function, same guards, same order of evaluation.
-  Parameters standing for the environment: `zlib` (compress/zlib NewReader + io.ReadAll on the fallback
-  path: `none` = either of them fails), `readFile` (os.ReadFile of base/<dbOID>/<relid>).
+  Parameters standing for the environment: `zlib data n` (compress/zlib NewReader + io.ReadAll of at most `n` bytes through
+  io.LimitReader on the fallback path, fix toast/20: `none` = either of them fails), `readFile` (os.ReadFile of base/<dbOID>/<relid>).
   Core Lean only (driver path).
 -/
 import PgVerif.Model.Heap
 import PgVerif.Model.Pglz
 import PgVerif.Model.Lz4
+import PgVerif.Model.KeySort
 namespace PgVerif.Model.Toast
 open PgVerif PgVerif.Model
 
@@ -52,17 +53,22 @@ def isTOASTPointer (data : Bytes) : M Bool := do
   let first ← idx data 0
   return first == 0x01 || first == 0x02 || first == 0x12
 
-/-- types.go:ReadVarlena (tree at /repo HEAD; fixes/rows/02 and /05 change only what is returned for an
-external pointer / an empty short varlena, neither of which yields a non-empty chunk).  `none` = nil. -/
+/-- types.go:ReadVarlena (tree at /repo HEAD, i.e. with fixes/rows/02 — an on-disk external pointer occupies 18 bytes —
+and /05 — an empty short varlena `03` is the empty value, not nil).  `none` = nil. -/
 def readVarlena (data : Bytes) : M (Option Bytes × Nat) := do
   if data.length = 0 then return (none, 0)
   let first ← idx data 0
   if first.toNat &&& 1 == 1 && first != 1 then
     let totalLen := first.toNat >>> 1
-    if totalLen ≤ 1 || data.length < totalLen then return (none, 1)
+    if totalLen < 1 || data.length < totalLen then return (none, 1)
     let d ← slice data 1 totalLen
     return (some d, totalLen)
-  if first == 1 then return (none, 1)
+  if first == 1 then
+    -- `if len(data) >= 18 && data[1] == 18 { return nil, 18 }; return nil, 1`
+    if data.length ≥ 18 then
+      let tag ← idx data 1
+      return (none, if tag == 18 then 18 else 1)
+    else return (none, 1)
   if data.length < 4 then return (none, 0)
   let header ← uN 4 data 0
   let totalLen := header >>> 2
@@ -87,8 +93,11 @@ def readTOASTTable (data : Bytes) : M (List Chunk) := do
   let es ← readTuples data true
   collectM (fun e => chunkOf e.tuple.data) es
 
-/-- the decompression branch of ReassembleTOAST (`data` = concatenated chunks, longer than 4 bytes) -/
-def decompressStored (zlib : Bytes → Option Bytes) (p : Ptr) (data : Bytes) : M Bytes := do
+/-- the decompression branch of ReassembleTOAST (`data` = concatenated chunks, longer than 4 bytes).
+`zlib data n` stands for `io.ReadAll(io.LimitReader(zlib.NewReader(data), n))` (fix toast/20: the fallback reads at most
+`rawSize` bytes, like the two decompressors): `some z` = the bytes read without error — at most `n` of them, which is
+io.LimitReader's contract and the hypothesis `ZlibBounded` of the size theorem — `none` = an error. -/
+def decompressStored (zlib : Bytes → Nat → Option Bytes) (p : Ptr) (data : Bytes) : M Bytes := do
   let rawSize := p.rawSize - 4
   let stream ← sliceFrom data 4
   let viaLz4 ← if p.method == 1 then Lz4.decompressLZ4 stream rawSize else pure none
@@ -99,18 +108,22 @@ def decompressStored (zlib : Bytes → Option Bytes) (p : Ptr) (data : Bytes) : 
     match viaPglz with
     | some d =>
       if d.length > 0 then return d
-      match zlib data with
+      match zlib data rawSize with
       | some z => return z
       | none => return data
     | none =>
-      match zlib data with
+      match zlib data rawSize with
       | some z => return z
       | none => return data
 
-/-- toast.go:ReassembleTOAST; `none` = nil.  `sort.Slice` by ChunkSeq is modelled by a stable merge sort:
-the two agree whenever the sequence numbers of the selected chunks are distinct (always the case for the
-visible chunks of one value; with duplicates Go's order among equals is unspecified). -/
-def reassembleTOAST (zlib : Bytes → Option Bytes) (chunks : List Chunk) (valueID : Nat) (ptr : Option Ptr) :
+/-- io.LimitReader's contract for the zlib parameter: never more than `n` bytes -/
+def ZlibBounded (zlib : Bytes → Nat → Option Bytes) : Prop := ∀ d n z, zlib d n = some z → z.length ≤ n
+
+/-- toast.go:ReassembleTOAST; `none` = nil.  `sort.SliceStable` by ChunkSeq (fixes/toast/06; it was `sort.Slice`, whose
+order among equal sequence numbers is unspecified and differed from any stable sort from 13 chunks on — REVIEW C2) is a
+stable sort: chunks with equal sequence numbers keep their stored order.  A stable sort's result is determined by the
+keys, so `List.mergeSort` (stable) is exact, duplicates included (family `toastties`). -/
+def reassembleTOAST (zlib : Bytes → Nat → Option Bytes) (chunks : List Chunk) (valueID : Nat) (ptr : Option Ptr) :
     M (Option Bytes) := do
   let valueChunks := chunks.filter (·.id == valueID)
   if valueChunks.length = 0 then return none
@@ -131,7 +144,7 @@ deriving Repr
 
 /-- toast.go:(*TOASTReader).ReadValue; the result for a non-pointer is the input itself.  Returns the reader as
 well: a table loaded from the data directory stays loaded (`r.chunks[toastRelID] = …`). -/
-def readValue (zlib : Bytes → Option Bytes) (readFile : Nat → Option Bytes) (r : Reader) (data : Bytes) :
+def readValue (zlib : Bytes → Nat → Option Bytes) (readFile : Nat → Option Bytes) (r : Reader) (data : Bytes) :
     M (Option Bytes × Reader) := do
   match ← parseTOASTPointer data with
   | none => return (some data, r)
@@ -166,7 +179,7 @@ structure VerboseInfo where
   maxChunksPerValue : Nat
   /-- map[int]int as an association list (Go's iteration order is random: compare sorted) -/
   distribution : List (Nat × Nat)
-  /-- one entry per value, in map iteration order (random in Go: compare sorted by chunk id) -/
+  /-- one entry per value, in ascending value id order (fixes/toast/05; it was map iteration order) -/
   values : List ValueInfo
 deriving Repr, DecidableEq
 
@@ -180,21 +193,33 @@ def countInsert (m : List (Nat × Nat)) (k : Nat) : List (Nat × Nat) :=
   if m.any (·.1 == k) then m.map fun kv => if kv.1 == k then (kv.1, kv.2 + 1) else kv
   else m ++ [(k, 1)]
 
-/-- the body of GetTOASTVerboseInfo after the `len(chunks) == 0` check -/
-def buildInfo (toastRelID : Nat) (chunks : List Chunk) : VerboseInfo :=
+/-- the iteration order of Go's `range valueChunks`: some rearrangement of the entries of the map -/
+abbrev GroupOrder := List (Nat × List Chunk) → List (Nat × List Chunk)
+
+/-- the body of GetTOASTVerboseInfo after the `len(chunks) == 0` check (with fixes/toast/05): the value ids are
+collected by ranging over the map (`π`: any order), sorted ascending, and each value is analysed in that order — the
+entries of the map sorted by value id (Model/KeySort.lean) -/
+def buildInfoWith (π : GroupOrder) (toastRelID : Nat) (chunks : List Chunk) : VerboseInfo :=
   let groups := chunks.foldl groupInsert []
+  let visited := keySort (·.1) (π groups)
   let totalSize := (chunks.map (·.data.length)).sum
-  let vals := groups.map fun g => (⟨g.1, g.2.length, (g.2.map (·.data.length)).sum⟩ : ValueInfo)
+  let vals := visited.map fun g => (⟨g.1, g.2.length, (g.2.map (·.data.length)).sum⟩ : ValueInfo)
   { toastRelID, totalChunks := chunks.length, uniqueValues := groups.length, totalSize,
     avgNum := totalSize, avgDen := chunks.length,
     maxChunksPerValue := (vals.map (·.numChunks)).foldl max 0,
     distribution := (vals.map (·.numChunks)).foldl countInsert [],
     values := vals }
 
+/-- the result for one fixed iteration order; `Props/C11Maps.C11_toastInfo_order_independent`: every order gives this -/
+def buildInfo (toastRelID : Nat) (chunks : List Chunk) : VerboseInfo := buildInfoWith id toastRelID chunks
+
 /-- toast.go:GetTOASTVerboseInfo; `none` = nil -/
-def getTOASTVerboseInfo (toastRelID : Nat) (data : Bytes) : M (Option VerboseInfo) := do
+def getTOASTVerboseInfoWith (π : GroupOrder) (toastRelID : Nat) (data : Bytes) : M (Option VerboseInfo) := do
   let chunks ← readTOASTTable data
   if chunks.length = 0 then return none
-  return some (buildInfo toastRelID chunks)
+  return some (buildInfoWith π toastRelID chunks)
+
+def getTOASTVerboseInfo (toastRelID : Nat) (data : Bytes) : M (Option VerboseInfo) :=
+  getTOASTVerboseInfoWith id toastRelID data
 
 end PgVerif.Model.Toast
